@@ -42,7 +42,9 @@ def apply(repo, m):
         s = open(p).read()
         saved.setdefault(p, s)
         if s.count(e['old']) < 1:
-            raise SystemExit('mutant %s: pattern not found in %s: %r' % (m['id'], e['file'], e['old'][:60]))
+            for p2, s2 in saved.items():
+                open(p2, 'w').write(s2)
+            raise LookupError('mutant %s: pattern not found in %s: %r' % (m['id'], e['file'], e['old'][:60]))
         s = s.replace(e['old'], e['new'], e.get('count', 1))
         open(p, 'w').write(s)
     return saved
@@ -50,7 +52,10 @@ def apply(repo, m):
 
 def run_one(scratch, m):
     repo = os.path.join(scratch, 'repo')
-    saved = apply(repo, m)
+    try:
+        saved = apply(repo, m)
+    except LookupError as e:
+        return m, [(p, False, -1, 'STALE: %s' % e) for p in m['props']]
     env = dict(os.environ, COPIA_REPO=repo, COPIA_VERIF_CACHE=os.path.join(scratch, 'cache'),
                COPIA_VERIF_OUT=os.path.join(scratch, 'out'))
     res = []
